@@ -184,7 +184,7 @@ impl<'t, F: Mv> MvSession<'t, F> {
                 Some(h)
             }
             Ok(Err(_)) => {
-                ev["res"] = json!("oom");
+                ev["res"] = json!({"oom": true});
                 self.out.emit(ev);
                 None
             }
